@@ -36,7 +36,7 @@ def verify(pid, x):
     d = tempfile.mkdtemp(prefix="sv.")
     try:
         rc, out = sh("git -C /repo archive HEAD | tar -x -C %s" % d)
-        rc, out = sh("git init -q . && git apply --whitespace=nowarn %s" % patch, cwd=d)
+        rc, out = sh("git init -q . && git add -A && git -c user.email=a@b -c user.name=n commit -qm base && git apply --whitespace=nowarn %s" % patch, cwd=d)
         if rc != 0:
             rc2, out2 = sh("patch -p1 --fuzz=3 < %s" % patch, cwd=d)
             if rc2 != 0:
